@@ -20,7 +20,7 @@ RULE = ("complete layer: every well-formed document with <= 3 nodes over keys {a
         "distinct_nontrivial = distinct (document, path) whose required query returns at least one node.")
 
 
-def build_jobs(chk, opts, nrand_quick=120000, nrand_thorough=2000000, grid=False):
+def build_jobs(chk, opts, nrand_quick=80000, nrand_thorough=2000000, grid=False):
     rng = random.Random(chk.seed)
     tier = chk.tier
     jobs = []
@@ -50,7 +50,8 @@ def build_jobs(chk, opts, nrand_quick=120000, nrand_thorough=2000000, grid=False
     chk.extra_cov["exhaustive_cases"] = len(cases)
     rnd = []
     for _ in range(nrand):
-        rnd.append((ev.random_doc(rng, rng.choice([6, 10, 15, 25])), ev.random_path(rng)))
+        d = ev.random_doc(rng, rng.choice([6, 10, 15, 25]))
+        rnd.append((d, ev.guided_path(rng, d) if rng.random() < 0.8 else ev.random_path(rng)))
     if grid:
         cases += index_grid()
     allc = cases + rnd
